@@ -85,7 +85,7 @@ def d_package(ann, extra_decls=()):
         ls.append("// @immutable")
     if ann.get("ctors"):
         ls.append("// @constructor NewT2")
-    ls += ["type T2 struct {", "\tX  int", "\tIn any", "}", "", "// hidden is unexported but handed out by Hidden; rec is unexported but named by the exported alias Rec."]
+    ls += ["type T2 struct {", "\tX  int", "\tIn any"] + (["\t// @mutable"] if ann.get("mut") else []) + ["\tM  int", "}", "", "// hidden is unexported but handed out by Hidden; rec is unexported but named by the exported alias Rec."]
     if ann.get("imm"):
         ls.append("// @immutable")
     ls += ["type hidden struct{ X int }", "", "// Hidden hands out a hidden.", "func Hidden() *hidden { return new(hidden) }", ""]
@@ -135,6 +135,7 @@ IMM_STMT = {
     "onTG": "g%(n)d.X = %(n)d",
     "onPkgVar": "%(q)sCounter = %(n)d",
     "onT2": "q%(n)d.X = %(n)d",
+    "onT2M": "q%(n)d.M = %(n)d",
     "onHidden": "%(q)sHidden().X = %(n)d",
     "local": "l%(n)d = %(n)d",
     "recvAssign": "*%(x)s = T{X: %(n)d}",
@@ -166,7 +167,7 @@ def imm_container(c, n, pkg, qual, handles):
     params = "p%d %s" % (n, te)
     if c["stmt"] == "onU":
         params = "u%d *%sU" % (n, qual)
-    if c["stmt"] == "onT2":
+    if c["stmt"] in ("onT2", "onT2M"):
         params = "q%d *%sT2" % (n, qual)
     if c["stmt"] == "onTG":
         params = "g%d *%sTG" % (n, qual)
@@ -183,7 +184,7 @@ def imm_container(c, n, pkg, qual, handles):
         # no parameters: the handle is a package-level variable declared in the handles file
         if c["stmt"] == "onU":
             handles.append("var u%d *%sU" % (n, qual))
-        elif c["stmt"] == "onT2":
+        elif c["stmt"] in ("onT2", "onT2M"):
             handles.append("var q%d *%sT2" % (n, qual))
         elif c["stmt"] == "onTG":
             handles.append("var g%d *%sTG" % (n, qual))
@@ -289,6 +290,10 @@ def build_generic(sc, sid, container_fn, d_extra=()):
     else:
         # the first file of the using package imports only "unsafe": the first import of the package carries no annotations
         gofiles.insert(0, {"name": "u/a0_sizes.go", "src": 'package u\n\nimport "unsafe"\n\nvar _ = unsafe.Sizeof(0)\n'})
+        if sum(map(ord, sid)) % 2 == 0:
+            # every other program: the using package has an in-package test file without annotations or violations
+            # (go vet analyses such a package only as its test variant)
+            gofiles.append({"name": "u/zz_internal_test.go", "src": "package u\n\nfunc helperForTests() int { return 1 }\n"})
         pkgs.append({"path": "m/u", "name": "u", "files": gofiles})
     expect = set()
     for f, i, code in sc["expect"]:
